@@ -432,6 +432,42 @@ pub fn run(cfg: Cfg, out: &mut Out) {
         }
     }
 
+    // 4b. long items: lengths around powers of two and well beyond (length-indexed shortcuts,
+    // small-string optimisations and bitmaps go wrong exactly there)
+    for round in 0..(if quick { 40 } else { 400 }) {
+        let lens: [usize; 14] = [7, 8, 15, 16, 31, 32, 33, 63, 64, 65, 127, 128, 255, 300];
+        let n = 1 + rng.below(5) as usize;
+        let mut items: Vec<Vec<u8>> = Vec::new();
+        for _ in 0..n {
+            let l = *rng.pick(&lens);
+            let fill = *rng.pick(&[b'a', b'b', b'z']);
+            let mut v = vec![fill; l];
+            if rng.chance(1, 2) {
+                let k = rng.below(l as u64) as usize;
+                v[k] = b'q';
+            }
+            items.push(v);
+        }
+        if round % 3 == 0 {
+            items.push(b"ab".to_vec());
+        }
+        let style = rng.next();
+        let mut probes: Vec<Vec<u8>> = items.clone();
+        for it in items.iter().take(3) {
+            let mut p = it.clone();
+            p.push(b'a');
+            probes.push(p);
+            probes.push(it[..it.len() - 1].to_vec());
+            let mut q = it.clone();
+            let k = q.len() / 2;
+            q[k] ^= 1;
+            probes.push(q);
+        }
+        for x in probes {
+            bytes_case(&s, out, &x, &items, style, "bytes.long");
+        }
+    }
+
     // 5. absent left-hand side: optional field without value is never a member
     {
         let text = "oi in {0..10}";
